@@ -7,6 +7,7 @@ from hypothesis import strategies as st
 
 from harness.loader import load
 from harness.runner import Part
+from harness import build as B
 from harness import values as V
 from harness import world as W
 from harness import relational as R
@@ -187,7 +188,7 @@ def run_elementwise(case, ctx):
     a, b, fam = case["a"], case["b"], case["fam"]
     if not a:
         return
-    va, vb = S.Vector(list(a)), S.Vector(list(b))
+    va, vb = B.vector(a), B.vector(b)
     for name, op in c05.BIN:
         for form, f in (("vector", lambda: op(va, vb)), ("scalar", lambda: op(va, case["sb"])), ("rscalar", lambda: op(case["sa"], vb)),
                         ("list", lambda: op(va, list(b))), ("rlist", lambda: op(list(a), vb))):
